@@ -96,7 +96,7 @@ pub fn check(cx: &Cx, rep: &mut Report) {
                 TL::Inv(j) => ix.invs[*j].out.map(|o| o.1 == ix.invs[*j].it).unwrap_or(false),
                 TL::Cb(j) => ix.cbs[*j].o.map(|o| o.1 == ix.cbs[*j].it).unwrap_or(false),
             });
-        if idle {
+        if idle && !af.parked {
             let last_vt = ix.ev.last().map(|e| e.vt).unwrap_or(0);
             let t_end = af.t_final().map(|t| ix.ev[t.0 as usize].vt).unwrap_or(last_vt);
             for t in tms.iter().filter(|t| t.actor == af.task && (t.kind == "interval" || t.kind == "interval_with" || t.kind == "delayed_send") && t.dur > 0) {
